@@ -640,7 +640,7 @@ func main() {
 		json.NewEncoder(os.Stdout).Encode(map[string]any{"all": allSpecs(), "core": coreSpecs()})
 		return
 	}
-	r := ev.Start("C14", "model_checking", 70*time.Second, 17*time.Minute)
+	r := ev.Start("C14", "model_checking", 78*time.Second, 17*time.Minute)
 	r.Rule = "state = everything planned/executed so far in one process; events = plan(q) and exec(plan_i, window); (a) every ordered history of <= D planning events from the query set under 3 schedules (plan+exec immediately / plan all then exec in order / exec in reverse order), each execution's SQL compared byte-for-byte with the SQL of the same spec planned first in a fresh process (two fresh processes per spec must agree); (b) every spec x advance in {1s, 13h (crosses midnight)} x k in {1,2,3}: the i-th execution of one plan object compared with the first execution of a fresh plan under the same window"
 	r.Assumptions = []string{
 		"the database seam is a scripted database/sql driver: SQL is observed as the statement text handed to ISqlxDB.QueryCtx (or rendered with ISelect.String for the planners whose caller renders it)",
@@ -810,14 +810,25 @@ func main() {
 	}
 	reCases := int64(0)
 	benign := map[string]int{}
+	chsimVerdicts := map[string]int{}
 	err = parseLines(out, func(m Mismatch) {
 		c, w := classify(m)
 		r.Outcome("reexec:" + c)
+		mv := meaning(m) // both statement lists executed by chsim on the universal database
+		mk := mv
+		if i := strings.IndexByte(mk, ':'); i > 0 {
+			mk = mk[:i]
+		}
+		chsimVerdicts[c+" -> "+mk]++
 		if strings.HasPrefix(c, "benign_") {
+			if mk == "differ" || mk == "got_fails" {
+				r.Violate("reexec_judged_"+c+"_but_results_differ", w+" — but on the universal database: "+mv, m)
+				return
+			}
 			benign[c]++
 			return
 		}
-		r.Violate(c, w, m)
+		r.Violate(c, w+" [chsim on the universal database: "+mv+"]", m)
 	}, func(s histStats) {
 		reCases = s.Histories
 		r.States += s.Histories
@@ -830,6 +841,7 @@ func main() {
 	}
 	r.Extra["reexec_cases"] = reCases
 	r.Extra["reexec_textual_differences_judged_same_meaning"] = benign
+	r.Extra["reexec_differences_executed_on_chsim"] = chsimVerdicts
 	r.Sample(map[string]any{"spec": all[1], "fresh_sql": base[all[1].Key()]})
 	r.Sample(map[string]any{"history": []string{core[0].Q, core[4].Q, core[10].Q}, "schedules": schedules})
 	r.Finish()
